@@ -33,7 +33,6 @@ LEAF_TOPS = {
     # params::vec_from_file with expected_size -1 (any size) / 2; flavour D: value disengaged, P: [1.5, 2.5]
     'vff': ('vff', -1), 'vff2': ('vff', 2),
 }
-VFF_KEY = 'C18-vec_from_file-half-write'
 
 # ---------------------------------------------------------------- bookkeeping shared by monitor and extra_stage
 COVER = set()                            # classes the monitor actually decided in this run
@@ -367,12 +366,12 @@ def gen_ops_factory(meta, ctx):
 
     def vff_ops(rng, top, kind, key):
         """vec_from_file: the `@file` form (file contents travel in the op) and the fixed corpus
-        that reproduces the open finding C18-vec_from_file-half-write (direct form)."""
+        that reproduced the (fixed) finding C18-vec_from_file-half-write (direct form)."""
         ops = []
         n = kind[1] if kind[1] >= 0 else 3
         good = ','.join(str(7 + i) for i in range(n)) + '\n'
         for fl in 'DP':
-            # direct form, fixed corpus (half-write reproducer: rejected element / wrong size)
+            # direct form, fixed corpus (reproducer of the fixed half-write: rejected element / wrong size)
             ops.append(ctx.op(top, fl, 'p', [f'{key}=3,x']))
             ops.append(ctx.op(top, fl, 'p', [f'{key}=' + ','.join('456'[:n])]))
             if kind[1] >= 0:
@@ -783,14 +782,6 @@ class Monitor:
                         key = 'C18:half-write:duration'
                     elif kind[0] == 'vec':
                         key = 'C18:half-write:vec'
-                    elif kind[0] == 'vff' and not val.startswith('@') and \
-                            status in ('exc:numInvalid', 'exc:numRange', 'exc:numSuffix', 'exc:badSize'):
-                        # direct form only: the optional is engaged / overwritten before the checks
-                        key = VFF_KEY
-                        for c in pending_cover:
-                            cover(*c)
-                        cover('vff', ('direct-bad-size' if status == 'exc:badSize' else 'direct-bad-element') +
-                              ('-from-engaged' if dict(pre)[''] != 'on' else '-from-disengaged'))
                 msg = (f'option {opts[i]!r} rejected ({status}) but leaf {q!r} was left as {post[j]} '
                        f'(before the option: {sorted(exp[q])})')
                 return (msg, key) if key else msg
